@@ -272,10 +272,17 @@ func runC18(env *lib.Env, rep *lib.Report) {
 			panic(lib.HarnessError{Msg: err.Error()})
 		}
 		defer w.destroy()
+		watch := storage.VerifWatchReadLocks()
 		storage.VerifSetFuel(worldFuel)
 		e := guard(func() error { return w.sess.ExecQuery(rf.Trace[1]) })
 		lib.Say("replay [%s] %s -> %v", rf.Trace[0], rf.Trace[1], e)
 		judge(rf.Trace[0], rf.Trace[1], e)
+		if n := watch(); n > 0 {
+			rep.AddFailure(&lib.Failure{Kind: "hang", Detail: fmt.Sprintf("the statement asks for the shared store lock %d time(s) while already holding it", n), Trace: rf.Trace})
+		}
+		if !storage.VerifLockFree(w.sess.RelationService) {
+			rep.AddFailure(&lib.Failure{Kind: "hang", Detail: "the statement returned but still holds the store lock", Trace: rf.Trace})
+		}
 		return
 	}
 	// a fatal runtime error (unlock of an unlocked mutex, stack overflow) cannot be recovered: the statement in
